@@ -350,6 +350,33 @@ class _C09(_RulesBase):
                     mreqs.append("rules decode %s %s" % (u, hexs(t)))
         mreqs.append("rules types")
         sts.append(Stream("rules-mutations", mreqs, compare=compare_lines))
+        # numbers at and around the edges of the machine integer types, alone, in short lists and in short
+        # ranges (never a range spanning more than a few integers), in every numeric position of every type
+        ext = []
+        for b in (7, 8, 15, 16, 31, 32, 62, 63, 64):
+            for d in (-2, -1, 0, 1):
+                ext.append(2 ** b + d)
+                ext.append(-(2 ** b) + d)
+        ext += [10 ** 18 - 1, 10 ** 18, 10 ** 19, -(10 ** 18), 999999, 1000000]
+        ereqs = []
+        for v in ext:
+            sv = str(v)
+            for typ in RANGE_TYPES:
+                forms = [sv, "0 " + sv, sv + " " + sv, "%d-%d" % (v - 3, v) if v - 3 >= 0 else "-(%d-%d)" % (-v, -v + 3),
+                         ("%d-%d]" % (v - 2, v)) if v - 2 >= 0 else "-(%d-%d])" % (-v, -v + 2), "%s %d" % (sv, v - 1)]
+                for f in forms:
+                    ereqs.append("rules decode %s %s" % (typ, hexs(f)))
+            for typ in ("cycleDays", "cycleWeeks", "weekDay"):
+                ereqs.append("rules decode %s %s" % (typ, hexs(sv)))
+                ereqs.append("rules decode %s %s" % (typ, hexs("1 " + sv)))
+            for typ, forms in (("date", ["%s/1/1", "1/%s/1", "1/1/%s"]), ("dayTime", ["%s:1:1", "1:%s:1", "1:1:%s", "1:%s"]),
+                               ("cycleLen", ["%s 1:1:1", "1 %s:1:1", "1 1:1:%s"]), ("start", ["%s/1/1 1:1:1", "1/1/%s 1:1:1", "1/1/1 %s:1:1"]),
+                               ("ex_dates", ["%s/1/1 1/1/1", "1/1/1 1/%s/1"]), ("dayTimeRange", ["%s:0:0 1:1:1", "1:1:1 0:0:%s"]),
+                               ("duration", ["%s s", "%s w", "0.%s h"]),
+                               ("weekMonth", ['{"weekIndex": %s, "weekDay": 1, "month": 1}', '{"month": %s}'])):
+                for f in forms:
+                    ereqs.append("rules decode %s %s" % (typ, hexs(f % sv)))
+        sts.append(Stream("rules-extremes", ereqs, compare=compare_lines))
         return sts
 
     def exhaustive(self, tier):
